@@ -68,13 +68,16 @@ CLAIMED = {
     technique="Lean 4 proof of a mirror model (invariant + refinement to a byte array) + differential correspondence check"),
  "C20": dict(
     category="proof",
-    text="The descriptor / calling-convention / lifter-register tables are regenerated from the current build into Lean literals on "
-         "every run; 12 clauses x 7 architectures (stack pointer emitted with the word width, endianness, every convention register "
-         "emitted with its width, preserved and trashed disjoint, sp preserved, ABI argument order, return register, return address, "
-         "stack slot length and offset) are proved by kernel evaluation (decide) against a hand-written ABI table; the same run re-reads "
-         "all 140 (architecture, field) values from the live code and compares each with the table and the ABI (exhaustive).",
+    text="The descriptor / calling-convention / lifter-register tables AND the answers of the query functions (argument_type(n) for "
+         "n up to registers+6, is_preserved / is_trashed on every convention, swept and one foreign register) are regenerated from the "
+         "current build into Lean literals on every run; 15 clauses x 7 architectures (stack pointer emitted with the word width, "
+         "endianness, every convention register emitted with its width, preserved and trashed disjoint, sp preserved, ABI argument "
+         "order, argument_type = ABI registers then stack slots one machine word apart from the ABI offset, queries agree with the "
+         "sets, return register, return address, stack slot length and offset) are proved by kernel evaluation (decide +kernel, 110 "
+         "theorems) against a hand-written ABI table; the same run re-reads all 168 (architecture, field) values from the live code "
+         "and compares each with the table and the ABI (exhaustive).",
     design_ref="DESIGN.md §6 C20",
-    note="The argument clause for aarch64/aarch64eb is _partial (known finding C20/aarch64*/args). 'Emitted' means emitted on the fixed "
+    note="The argument clauses for aarch64/aarch64eb are _partial (known findings C20/aarch64*/args and C20/aarch64*/arg_types). 'Emitted' means emitted on the fixed "
          "register sweep. IL load/store carry no byte order: what is observed of the translator is its instruction-fetch order and "
          "address widths, the stored bytes on a memory built from endian(). The ABI table Abi.lean is hand-written and trusted.",
     technique="regenerated Lean literals + decide; hand-written ABI specification; exhaustive three-way comparison"),
